@@ -108,6 +108,136 @@ def listing(root: str) -> T.List[str]:
     return sorted(out)
 
 
+RECORDING_NINJA = """#!/bin/sh
+# stand-in for ninja: answers --version / -t compdb like tools/ninja-stub and appends every other invocation to
+# $C15_NINJA_LOG as: arg NUL arg NUL ... newline
+case "$1" in
+  --version) echo "1.11.1"; exit 0;;
+esac
+for a in "$@"; do
+  if [ "$a" = "compdb" ]; then echo "[]"; exit 0; fi
+done
+if [ "$1" = "-n" ]; then echo "ninja: no work to do."; exit 0; fi
+if [ -n "$C15_NINJA_LOG" ]; then
+  { printf '%s\\0' "$@"; printf '\\n'; } >> "$C15_NINJA_LOG"
+fi
+exit 0
+"""
+
+
+def pretend_build(build: Path) -> int:
+    """There is no ninja here: create (as small text files) the outputs the statements of build.ninja promise, so
+    that `meson install --no-rebuild` finds what a build would have produced.  Existing files (configure-time
+    outputs, alias links) are left alone."""
+    man = ninja_ref.parse_file(build / 'build.ninja')
+    n = 0
+    for e in man.edges:
+        if e.is_phony:
+            continue
+        for o in e.all_outs():
+            full = o if os.path.isabs(o) else os.path.join(build, o)
+            full = os.path.normpath(full)
+            if not full.startswith(str(build) + os.sep) or os.path.lexists(full):
+                continue
+            os.makedirs(os.path.dirname(full), exist_ok=True)
+            if full.endswith('.jar'):
+                # (`meson install` rewrites the manifest of a jar: it has to be a real archive)
+                import zipfile
+                with zipfile.ZipFile(full, 'w') as z:
+                    z.writestr('META-INF/MANIFEST.MF', 'Manifest-Version: 1.0\n')
+            else:
+                with open(full, 'w', encoding='utf-8') as f:
+                    f.write('built\n')
+            n += 1
+    return n
+
+
+def test_requests(build: Path, tests: T.List[T.Dict[str, T.Any]]) -> T.List[T.Dict[str, T.Any]]:
+    """Run `meson test <selection>` (two complementary strict selections of the test names; the tests themselves
+    are replaced by /bin/true through --wrapper) with a recording ninja; returns per selection the names asked."""
+    names = sorted({x['name'] for x in tests})
+    if len(names) < 2:
+        return []
+    stub = build.parent / 'ninja-recording'
+    stub.write_text(RECORDING_NINJA)
+    stub.chmod(0o755)
+    out = []
+    for k, sel in enumerate((names[:1], names[1:])):
+        log = build.parent / f'ninja-log-{k}'
+        r = projgen.run_meson(['test', '-C', str(build), '--wrapper', '/bin/true', '--num-processes', '2'] + sel,
+                              env={'NINJA': str(stub), 'C15_NINJA_LOG': str(log)}, timeout=CLI_TIMEOUT)
+        if r.returncode not in (0, 1):
+            raise common.MachineryError(f'meson test {sel} failed: {(r.stdout + r.stderr)[-600:]}')
+        asked: T.List[str] = []
+        if log.exists():
+            for ln in log.read_bytes().split(b'\n'):
+                args = [a.decode('utf-8', 'surrogateescape') for a in ln.split(b'\0') if a]
+                if not args:
+                    continue
+                # ninja -C <dir> <targets...>
+                rest = args[2:] if args[0] == '-C' else args
+                asked += [ninja_ref.canonicalize(a) for a in rest]
+        out.append({'sel': sel, 'asked': asked})
+    return out
+
+
+BUILD_DEF_NAMES = ('meson.build', 'meson.options', 'meson_options.txt')
+CLI_TIMEOUT = 1800    # seconds for one `meson install` / `meson test` (the box may be heavily loaded)
+
+
+def traced_setup(src: Path, build2: Path, p: T.Optional[T.Dict[str, T.Any]], job: T.Dict[str, T.Any]) -> T.Tuple[T.List[str], T.List[str]]:
+    """Configure the same source tree once more, under `strace -f -e trace=open,openat`; returns (the build-definition
+    files below the source directory that were opened successfully, intro-buildsystem_files.json of that build
+    directory), both source-relative."""
+    import re
+    import subprocess
+    log = build2.parent / 'strace.out'
+    cmd = ['strace', '-f', '-qq', '-e', 'trace=open,openat', '-o', str(log)] + projgen.meson_cmd() + \
+        ['setup', f"--backend={job.get('backend', 'ninja')}"]
+    if p is not None:
+        cmd += projgen.setup_args(p)
+    cmd += list(job.get('extra_args', [])) + [str(build2), str(src)]
+    try:
+        r = subprocess.run(cmd, env=projgen.run_env(), stdout=subprocess.PIPE, stderr=subprocess.PIPE, text=True, errors='replace',
+                           stdin=subprocess.DEVNULL, timeout=job.get('timeout', 300) * 3)
+    except (OSError, subprocess.TimeoutExpired) as ex:
+        raise common.MachineryError(f'traced meson setup failed to run in {job["id"]}: {ex}') from ex
+    if r.returncode != 0 or not log.exists():
+        raise common.MachineryError(f'traced meson setup failed in {job["id"]}: {(r.stdout + r.stderr)[-600:]}')
+    mp = Mapper(src, build2)
+    opened = set()
+    call = re.compile(r'^(\d+)?\s*open(?:at)?\((?:AT_FDCWD, )?"((?:[^"\\]|\\.)*)", ([A-Z_|0-9]+)')
+    done = re.compile(r'\)\s+= (-?\d+)')
+    resumed = re.compile(r'^(\d+)?\s*<\.\.\. open(?:at)? resumed>.*\)\s+= (-?\d+)')
+    pending: T.Dict[str, T.Tuple[str, str]] = {}
+
+    def note(path: str, flags: str, ret: int) -> None:
+        if ret < 0 or 'O_DIRECTORY' in flags or 'O_WRONLY' in flags or '\\' in path:
+            return      # (escaped non-ASCII names are not generated for these projects)
+        if os.path.basename(path) not in BUILD_DEF_NAMES:
+            return
+        full = os.path.realpath(os.path.normpath(path if os.path.isabs(path) else os.path.join(str(build2.parent), path)))
+        if full.startswith(mp.src + os.sep):
+            opened.add(os.path.relpath(full, mp.src))
+
+    for ln in log.read_text(encoding='utf-8', errors='replace').splitlines():
+        m = call.search(ln)
+        if m:
+            if '<unfinished' in ln:
+                pending[m.group(1) or ''] = (m.group(2), m.group(3))
+                continue
+            r2 = done.search(ln[m.end():])
+            if r2:
+                note(m.group(2), m.group(3), int(r2.group(1)))
+            continue
+        m = resumed.search(ln)
+        if m and (m.group(1) or '') in pending:
+            path, flags = pending.pop(m.group(1) or '')
+            note(path, flags, int(m.group(2)))
+    bs = [mp.srcrel(x) for x in read_json(build2 / 'meson-info' / 'intro-buildsystem_files.json')]
+    return sorted(opened), bs
+
+
 def project_views(src: Path, build: Path, setup_result: projgen.SetupResult, p: T.Optional[T.Dict[str, T.Any]],
                   job: T.Dict[str, T.Any]) -> T.Dict[str, T.Any]:
     mp = Mapper(src, build)
@@ -149,11 +279,14 @@ def project_views(src: Path, build: Path, setup_result: projgen.SetupResult, p: 
         opts.append({'name': o['name'], 'type': o['type'], 'text': option_text(o['value']), 'section': o['section']})
     v['options'] = opts
     msgs = []
-    for m in setup_result.messages:
-        if m.startswith('OPT|'):
-            parts = m.split('|', 4)
-            if len(parts) == 5:
-                msgs.append({'sp': parts[1], 'name': parts[2], 'type': parts[3], 'text': parts[4]})
+    # (message() lines of a subproject are printed with a "<subproject>| " prefix)
+    for ln in setup_result.stdout.splitlines():
+        at = ln.find('Message: OPT|')
+        if at < 0 or (at > 0 and not ln[:at].endswith('| ')):
+            continue
+        parts = ln[at + len('Message: '):].split('|', 4)
+        if len(parts) == 5:
+            msgs.append({'sp': parts[1], 'name': parts[2], 'type': parts[3], 'text': parts[4]})
     v['messages'] = msgs
     optval = {o['name']: o['text'] for o in opts}
     v['dirs'] = [[k, optval.get(k, '')] for k in ('prefix', 'bindir', 'libdir', 'datadir', 'includedir', 'mandir', 'libexecdir',
@@ -195,6 +328,11 @@ def project_views(src: Path, build: Path, setup_result: projgen.SetupResult, p: 
                         'sp': s(i.subproject), 'isdir': True})
             dirs_listing.append([mp.path(i.path), [x for x in listing(i.path) if not x.endswith('/')]])
         v['dat_other'] = {'symlinks': len(d.symlinks), 'emptydir': len(d.emptydir), 'scripts': len(d.install_scripts)}
+        # symbolic links (intro-installed.json lists them by name) and empty directories (in no introspection file)
+        v['dat_links'] = [os.path.join(pre, x.name) for x in d.symlinks]
+        v['dat_empty'] = [os.path.join(pre, x.path) for x in d.emptydir]
+    v.setdefault('dat_links', [])
+    v.setdefault('dat_empty', [])
     v['dat'] = dat
     v['dir_listing'] = dirs_listing
 
@@ -202,8 +340,10 @@ def project_views(src: Path, build: Path, setup_result: projgen.SetupResult, p: 
     v['did_install'] = False
     v['tree'] = []
     if job.get('install'):
+        if (build / 'build.ninja').exists():
+            pretend_build(build)
         dest = build.parent / 'destdir'
-        r = projgen.run_meson(['install', '-C', str(build), '--destdir', str(dest), '--no-rebuild'])
+        r = projgen.run_meson(['install', '-C', str(build), '--destdir', str(dest), '--no-rebuild'], timeout=CLI_TIMEOUT)
         if r.returncode != 0:
             raise common.MachineryError(f'meson install failed in {job["id"]}: {(r.stdout + r.stderr)[-600:]}')
         v['did_install'] = True
@@ -214,8 +354,9 @@ def project_views(src: Path, build: Path, setup_result: projgen.SetupResult, p: 
     v['did_test'] = False
     if job.get('run_tests'):
         r = projgen.run_meson(['test', '-C', str(build), '--no-rebuild', '--num-processes', '2'],
-                              env={'VERIF_RUN_DIR': str(build)})
-        r2 = projgen.run_meson(['test', '-C', str(build), '--no-rebuild', '--benchmark'], env={'VERIF_RUN_DIR': str(build)})
+                              env={'VERIF_RUN_DIR': str(build)}, timeout=CLI_TIMEOUT)
+        r2 = projgen.run_meson(['test', '-C', str(build), '--no-rebuild', '--benchmark'], env={'VERIF_RUN_DIR': str(build)},
+                               timeout=CLI_TIMEOUT)
         v['bench_rc'] = r2.returncode
         v['did_test'] = True
         v['test_rc'] = r.returncode
@@ -230,6 +371,9 @@ def project_views(src: Path, build: Path, setup_result: projgen.SetupResult, p: 
                     envd[k] = val
             runs.append({'key': f.name[len('run_'):-len('.txt')], 'argv': argv, 'env': env_pairs(envd)})
     v['runs'] = runs
+
+    # ---- what `meson test <selection>` asks the backend to build (the ninja stand-in records its argv)
+    v['requests'] = test_requests(build, v['tests']) if job.get('ask_rebuild') and (build / 'build.ninja').exists() else []
 
     # ---- build system files
     bs = read_json(info / 'intro-buildsystem_files.json')
@@ -270,4 +414,12 @@ def project_views(src: Path, build: Path, setup_result: projgen.SetupResult, p: 
                         continue  # coredata.dat and other build-directory state
                     regen.append(mp.srcrel(q))
     v['regen_inputs'] = regen
+
+    # ---- the build-definition files meson really opens (a second, identical `meson setup` run under strace)
+    v['did_trace'] = False
+    v['read_files'] = []
+    v['read_bsfiles'] = []
+    if job.get('trace_reads'):
+        v['read_files'], v['read_bsfiles'] = traced_setup(src, build.parent / 'b-traced', p, job)
+        v['did_trace'] = True
     return v
